@@ -20,7 +20,8 @@ from concurrent.futures import ThreadPoolExecutor
 from zv import core
 
 PID = "C06"
-ENTRY_FRAME_MODEL = ("compress", "compress2", "stream2end")   # entries that go through ZSTD_compressEnd_public
+ENTRY_FRAME_MODEL = ("compress", "compress2", "stream2end", "dict")   # entries that go through ZSTD_compressEnd_public
+MT_JOBSIZE = 512 << 10
 KB128 = 128 << 10
 
 
@@ -196,32 +197,17 @@ def replay_args(desc):
         return None
     if f[0] == "frames":
         return f[:5]
+    if f[0] == "stream1":
+        return f[:10]
     if f[0] != "one":
         return None
-    if len(f) > 19 and f[19] in ("DECODE", "TRUNC", "DAMAGE"):
+    if len(f) > 19 and f[19] in ("DECODE", "TRUNC", "DAMAGE", "INPLACE"):
         return f[:21]
     return f[:19]
 
 
-def sweep(ctx, model, exe, problems):
-    tier = 0 if ctx.quick else 1
-    nsh = min(16, core.NCPU)
-    res = run_shards(exe, "sweep", ctx.seed, tier, nsh, timeout=2400)
-    cases, bads, faults = [], [], []
-    for rc, out, err in res:
-        if rc != 0:
-            problems.append(dict(kind="sweep-harness-exit", rc=rc, err=err[-300:]))
-        for l in out.split("\n"):
-            if l.startswith("CASE "):
-                d = dict(CASE_RE.findall(l))
-                cases.append(d)
-            elif l.startswith("BAD "):
-                bads.append(l)
-            elif l.startswith("FAULT "):
-                faults.append(l)
-            elif l.startswith("ABANDON"):
-                problems.append(dict(kind="sweep-case-abandoned", line=l))
-    # ---- direct oracle results (concrete failing inputs)
+def report_direct(ctx, exe, bads, faults, family):
+    """direct oracle results (concrete failing inputs): one violation per (kind, site, entry)"""
     seen = {}
     for l in faults:
         m = re.match(r"FAULT sig=(\d+) addr=(\S+) bt=(\S*) :: (.*)", l)
@@ -244,9 +230,31 @@ def sweep(ctx, model, exe, problems):
             continue
         seen[key] = dict(kind=what, cap=int(cap), ret=int(ret), msg=msg, desc=desc, count=1, argv=replay_args(desc))
     for key, v in seen.items():
-        ctx.violation(dict(family="capacity-sweep", harness="c06_sweep", **v),
+        ctx.violation(dict(family=family, harness="c06_sweep", **v),
                       what="capacity discipline violated on the real code: %s (%s) x%d :: %s" %
                            (v["kind"], ",".join(v.get("where", [])[:3]) if v.get("where") else v.get("msg", ""), v["count"], v["desc"][:160]))
+
+
+
+def sweep(ctx, model, exe, problems):
+    tier = 0 if ctx.quick else 1
+    nsh = min(16, core.NCPU)
+    res = run_shards(exe, "sweep", ctx.seed, tier, nsh, timeout=2400)
+    cases, bads, faults = [], [], []
+    for rc, out, err in res:
+        if rc != 0:
+            problems.append(dict(kind="sweep-harness-exit", rc=rc, err=err[-300:]))
+        for l in out.split("\n"):
+            if l.startswith("CASE "):
+                d = dict(CASE_RE.findall(l))
+                cases.append(d)
+            elif l.startswith("BAD "):
+                bads.append(l)
+            elif l.startswith("FAULT "):
+                faults.append(l)
+            elif l.startswith("ABANDON") and "FAULT " not in out:
+                problems.append(dict(kind="sweep-case-abandoned", line=l))
+    report_direct(ctx, exe, bads, faults, "capacity-sweep")
 
     # ---- model comparison + hypothesis validation
     lines, idx = [], []
@@ -263,12 +271,14 @@ def sweep(ctx, model, exe, problems):
                 lines.append("R %s %s %s %s %s" % (hx(n), hx(max(bs, 1)), hx(hs), chk, hx(minok))); idx.append((ci, "at"))
                 if minok > 0:
                     lines.append("R %s %s %s %s %s" % (hx(n), hx(max(bs, 1)), hx(hs), chk, hx(minok - 1))); idx.append((ci, "below"))
+        if d["entry"] == "mt" and allraw:
+            lines.append("J %s %s %s %s %s %s" % (hx(n), hx(MT_JOBSIZE), hx(KB128), hx(KB128), hx(hs), chk)); idx.append((ci, "mt"))
         # cctx->blockSize (ZSTD_resetCCtx_internal)
         lines.append("K %s %s %s" % (hx(int(d["maxbs"])), hx(int(d["applied_wlog"])), hx(n))); idx.append((ci, "bs"))
     outs = model.run(lines)
     for (ci, what), o in zip(idx, outs):
         cases[ci]["_" + what] = o
-    stats = dict(exact_threshold=0, real_more_permissive=0, chunks_validated=0, wire_blocks=0, nonmonotone_cases=0)
+    stats = dict(exact_threshold=0, real_more_permissive=0, chunks_validated=0, wire_blocks=0, nonmonotone_cases=0, mt_frames_exact=0)
     hist_kind, hist_entry, hist_n = {}, {}, {}
     for d in cases:
         n, hs, bs, bound, csize = int(d["n"]), int(d["hs"]), int(d["bsmax"]), int(d["bound"]), int(d["csize"])
@@ -338,6 +348,13 @@ def sweep(ctx, model, exe, problems):
                     problems.append(dict(kind="frame-size-differs-from-raw-model", case=desc, model=at[1], real=csize))
                 else:
                     stats["real_more_permissive"] += 1
+        if "_mt" in d:
+            # (C) multi-threaded frame on incompressible input: size = the model's job framing (mt_raw_frame)
+            mv = d["_mt"].split()[1]
+            if mv == "ERR" or int(mv, 16) != csize:
+                problems.append(dict(kind="mt-frame-size-differs-from-job-model", case=desc, model=mv, real=csize))
+            else:
+                stats["mt_frames_exact"] += 1
         if bound and maxfail >= bound:
             pass  # already reported by the harness as bound-capacity-rejected
         ctx.sample(dict(family="sweep", **desc), maxn=6)
@@ -347,10 +364,46 @@ def sweep(ctx, model, exe, problems):
 
 def replay_case_args(d):
     kinds = ["noise", "alt8k", "rle", "text", "sparse", "altstat"]
-    entries = ["compress", "compress2", "stream2end", "sequences"]
+    entries = ["compress", "compress2", "stream2end", "sequences", "mt", "dict"]
     return [str(kinds.index(d["kind"])), d["iseed"], d["n"], str(entries.index(d["entry"])), d["level"], d["chk"], d["csf"],
             d["wlog"], d["maxbs"], d["tcbs"], d["split"], d["strat"], d["mm"], d["ldm"]]
 
+
+
+# ---------------------------------------------------------------------------------------------------------
+# (2b) multi-call streaming: every output / input buffer of every call fenced
+
+def streaming(ctx, exe, problems):
+    tier = 0 if ctx.quick else 1
+    nsh = min(16, core.NCPU)
+    res = run_shards(exe, "stream", ctx.seed, tier, nsh, timeout=2400)
+    bads, faults, n, calls = [], [], 0, 0
+    hist = {}
+    for rc, out, err in res:
+        if rc != 0:
+            problems.append(dict(kind="stream-harness-exit", rc=rc, err=err[-300:]))
+        for l in out.split("\n"):
+            if l.startswith("STREAM "):
+                d = dict(CASE_RE.findall(l))
+                n += 1
+                k = int(d["ccalls"]) + int(d["dcalls"])
+                calls += k
+                c = int(d["c"])
+                cb = "1" if c == 1 else "<=8" if c <= 8 else "<=19" if c <= 19 else "<=4096" if c <= 4096 else "64K"
+                hist[cb] = hist.get(cb, 0) + 1
+                nn = int(d["n"])
+                ctx.count(("stream", d["kind"], d["mt"], cb, 0 if nn == 0 else 1 if nn < 1000 else 2 if nn < 100000 else 3), nontrivial=nn > 0, n=max(k, 1))
+                if d["csize"] == "-1":
+                    problems.append(dict(kind="stream-case-failed", line=l))
+            elif l.startswith("BAD "):
+                bads.append(l)
+            elif l.startswith("FAULT "):
+                faults.append(l)
+            elif l.startswith("ABANDON") and "FAULT " not in out:
+                problems.append(dict(kind="stream-case-abandoned", line=l))
+    report_direct(ctx, exe, bads, faults, "streaming")
+    ctx.cov["traces_validated_against_impl"] += n
+    ctx.notes["streaming"] = dict(cases=n, calls=calls, by_out_chunk=hist)
 
 # ---------------------------------------------------------------------------------------------------------
 # (3) inspectors
@@ -443,6 +496,99 @@ def inspectors(ctx, model, exe, problems):
     ctx.notes["inspectors"] = st
 
 
+
+# ---------------------------------------------------------------------------------------------------------
+# (4) unit-level tie of the capacity-checked writers (harness/c06_units.c)
+
+def units(ctx, model, problems):
+    exe = core.build_harness("c06_units", ["c06_units.c"], extra_flags=["-w"])
+    rc, out, err = core.sh([exe, "units", str(ctx.seed)], timeout=900)
+    if rc != 0:
+        problems.append(dict(kind="units-harness-exit", rc=rc, err=err[-300:]))
+    calls, hlines, fh_hs, ep_hs, sk_hex = [], [], {}, {}, {}
+    for l in out.split("\n"):
+        if l.startswith("U "):
+            m = re.match(r"U (\w+) ([\d ]+) -> (OK (\d+)|ERR (.*))$", l)
+            if not m:
+                continue
+            fam, args = m.group(1), [int(x) for x in m.group(2).split()]
+            ok = int(m.group(4)) if m.group(4) is not None else None
+            calls.append((fam, args, ok, l))
+            if fam == "FH" and ok is not None:
+                fh_hs[args[1]] = ok
+            if fam == "EP" and args[0] == 0:          # n1 == 0: the first call returned the header size
+                ep_hs[(args[2], args[3])] = args[4]
+        elif l.startswith("H "):
+            m = re.match(r"H (id=\S+ \S+) hex=(\S+) :: (I .*)$", l)
+            if m:
+                hlines.append(m.groups())
+                mm = re.match(r"id=sk(\d+)", m.group(1))
+                if mm:
+                    sk_hex[int(mm.group(1))] = m.group(2)
+        elif l.startswith(("BAD ", "FAULT ")):
+            ctx.violation(dict(family="units", harness="c06_units", line=l[:400], argv=None),
+                          what="capacity discipline violated in a direct call of a writer: " + l[:200])
+        elif l.startswith("ABANDON"):
+            problems.append(dict(kind="units-family-abandoned", line=l))
+    lines, idx = [], []
+    for ci, (fam, a, ok, raw) in enumerate(calls):
+        if fam == "NC":
+            lines.append("UN %s %s" % (hx(a[0]), hx(a[1])))
+        elif fam == "RL":
+            lines.append("UR %s" % hx(a[0]))
+        elif fam == "LE":
+            lines.append("UL %s" % hx(a[0]))
+        elif fam == "FH":
+            if a[1] not in fh_hs:
+                problems.append(dict(kind="unit-frame-header-never-succeeds", line=raw))
+                continue
+            lines.append("UF %s %s" % (hx(a[0]), hx(fh_hs[a[1]])))
+        elif fam == "SK":
+            lines.append("US %s %s %s" % (hx(a[0]), hx(a[1]), hx(a[1] % 16)))
+        elif fam == "SR":
+            if a[0] not in sk_hex:
+                continue
+            lines.append("UD %s %s" % (hx(a[1]), sk_hex[a[0]]))
+        elif fam == "EP":
+            n1, n2, chk, bs, r1, cap = a
+            lines.append("UE %s %s %d %s %s %s" % (hx(bs), hx(ep_hs.get((chk, bs), 6)), chk, hx(n1), hx(n2), hx(cap)))
+        else:
+            continue
+        idx.append(ci)
+    outs = model.run(lines)
+    nmis = 0
+    hist = {}
+    for ci, mo in zip(idx, outs):
+        fam, a, ok, raw = calls[ci]
+        f = mo.split()
+        if fam == "EP":
+            w1 = f[1]
+            mres = f[2:]
+            if w1 == "ERR" or int(w1, 16) != a[4]:
+                nmis += 1
+                if nmis <= 6:
+                    problems.append(dict(kind="unit-model-vs-real", family=fam, real=raw, model=mo, what="first call size"))
+        else:
+            mres = f[1:]
+        mok = int(mres[1], 16) if mres[0] == "OK" else None
+        hist[fam] = hist.get(fam, 0) + 1
+        ctx.count(("unit", fam, ok is not None, a[0] if fam in ("NC", "SK", "SR") else a[1] if fam == "EP" else 0), nontrivial=True)
+        if mok != ok:
+            nmis += 1
+            if nmis <= 6:
+                problems.append(dict(kind="unit-model-vs-real", family=fam, real=raw, model=mo))
+    ctx.cov["traces_validated_against_impl"] += len(idx)
+    # header bytes produced by the real writers, read back by the inspector model
+    mod = model.run(["I " + h[1] for h in hlines])
+    for (ident, hexs, real_i), mo in zip(hlines, mod):
+        ctx.count(("unit-header", ident.split()[0][:5], real_i.split()[2].split(":")[0]), nontrivial=True)
+        if real_i != mo:
+            problems.append(dict(kind="inspector-model-vs-real", cls="unit-header", id=ident, real=real_i, model=mo, hex=hexs))
+    ctx.cov["traces_validated_against_impl"] += len(hlines)
+    ctx.notes["units"] = dict(calls=len(calls), by_family=hist, headers=len(hlines), mismatches=nmis)
+    if calls:
+        ctx.sample(dict(family="units", call=calls[len(calls) // 3][3]))
+
 # ---------------------------------------------------------------------------------------------------------
 def search_bound(ctx, exe, rng):
     """SEARCH for a concrete input on which the real ZSTD_compressBound capacity is rejected: incompressible data,
@@ -507,11 +653,15 @@ def run(ctx):
     if ctx.replay_file:
         return replay(ctx)
 
+    import time
+    t0 = time.time()
     ctx.prove()
+    core.log("C06 phase prove: %.1f s" % (time.time() - t0)); t0 = time.time()
 
     tie_exe = core.build_harness("c06_tie", ["c06_tie.c"], extra_flags=["-w"])
     sweep_exe = core.build_harness("c06_sweep", ["c06_sweep.c"], extra_flags=["-w"])
     model = Model()
+    core.log("C06 phase build: %.1f s" % (time.time() - t0)); t0 = time.time()
 
     def search(broken):
         return search_bound(ctx, sweep_exe, rng)
@@ -519,8 +669,15 @@ def run(ctx):
     ctx.proof_verdict(search)
 
     problems = tie_values(ctx, model, tie_exe, rng)
+    core.log("C06 phase value tie: %.1f s" % (time.time() - t0)); t0 = time.time()
     sweep(ctx, model, sweep_exe, problems)
+    core.log("C06 phase sweep: %.1f s" % (time.time() - t0)); t0 = time.time()
+    streaming(ctx, sweep_exe, problems)
+    core.log("C06 phase streaming: %.1f s" % (time.time() - t0)); t0 = time.time()
     inspectors(ctx, model, sweep_exe, problems)
+    core.log("C06 phase inspectors: %.1f s" % (time.time() - t0)); t0 = time.time()
+    units(ctx, model, problems)
+    core.log("C06 phase units: %.1f s" % (time.time() - t0)); t0 = time.time()
 
     if ctx.tier == "thorough":
         asan_pass(ctx, problems)
